@@ -8,6 +8,8 @@ def run(chk):
     for p in (17, 193, 40961):
         scn, n = pc.scenarios(chk, p)
         pc.record_and_validate(chk, p, "pair", scn, n, "pair-p%d" % p)
+    scn, n = pc.scenarios(chk, "big193")
+    pc.record_and_validate(chk, 193, "pair", pc.thin(scn, 1, 4000), 16 if thorough else 8, "pair-big-p193")
     chk.exhaustive = False
     chk.explanation = (
         "For every pair of consecutive measurements of every circuit in the TLC-generated lattice, the real Prio3 shards both with the same randomness and nonce; "
